@@ -1,7 +1,7 @@
 (* C11 -- joint allocations stay inside the object's single block and it is freed whole.  Statements only.
    Joint.v models the joint stack behind joint_allocator / joint_array (fixed_memory_stack with fence 0). *)
 From Coq Require Import ZArith List Bool.
-From FM Require Import FixedStack ListLib Joint JointProofs.
+From FM Require Import FixedStack ListLib Joint JointProofs JointExc JointExcProofs.
 Import ListNotations.
 Local Open Scope Z_scope.
 
@@ -37,6 +37,34 @@ Print Assumptions C11_release_params_are_allocation_params.
 Theorem C11_clone_size_within_capacity : forall s, JInv s -> 0 <= j_clone_size s <= j_cap s.
 Proof. exact clone_size_bounds. Qed.
 Print Assumptions C11_clone_size_within_capacity.
+
+(* ---- "the object is destroyed once and its block is freed whole" (JointExc.v: the events of creation, clone / move into
+   another allocator, and reset; the same event lists the harness logs) ---- *)
+(* every element of the member array -- of the original and of the clone -- is constructed exactly once and destroyed exactly
+   once, nothing else is; as many nodes go back as were obtained; no exception; the first event obtains the node and the last
+   one gives a node back: for every element count *)
+Theorem C11_every_element_destroyed_exactly_once : forall n post i,
+  let ev := jx_case n None post in
+  jcount (is_jc i) ev = (if in_range 1 (jx_total n post) i then 1 else 0)%nat /\
+  jcount (is_jd i) ev = jcount (is_jc i) ev /\
+  jcount is_ja ev = jcount is_jf ev /\
+  jcount is_jt ev = 0%nat /\
+  exists mid, ev = JxAlloc :: mid ++ [JxFree].
+Proof. exact jx_success_lifecycle. Qed.
+Print Assumptions C11_every_element_destroyed_exactly_once.
+
+(* the order: elements are destroyed first to last while their node is still there, then the node goes back in one release;
+   the clone is built after the original is complete and is gone before the original is touched *)
+Theorem C11_elements_destroyed_before_the_block_is_freed : forall n,
+  jx_case n None PNone = [JxAlloc] ++ map JxC (seq 1%nat n) ++ map JxD (seq 1%nat n) ++ [JxFree] /\
+  jx_case n None PCopy = [JxAlloc] ++ map JxC (seq 1%nat n) ++ [JxAlloc] ++ map JxC (seq (S n) n) ++ map JxD (seq (S n) n) ++ [JxFree]
+                          ++ map JxD (seq 1%nat n) ++ [JxFree].
+Proof. exact jx_success_shape. Qed.
+Print Assumptions C11_elements_destroyed_before_the_block_is_freed.
+
+Example C11_lifecycle_nonvacuous :
+  jx_case 2%nat None PCopy = [JxAlloc; JxC 1; JxC 2; JxAlloc; JxC 3; JxC 4; JxD 3; JxD 4; JxFree; JxD 1; JxD 2; JxFree]%nat.
+Proof. vm_compute. reflexivity. Qed.
 
 Example C11_nonvacuous :
   let s := fold_left (fun st o => fst (jstep st o)) [JAlloc 5 1; JAlloc 24 8; JAlloc 32 16; JAlloc 7 1] (j_init 65544 64 200) in
